@@ -201,6 +201,79 @@ fn enum_long(_t: Tier, shard: usize, n: usize, f: &mut dyn FnMut(Soup) -> bool) 
     }
 }
 
+// ---- long chains of strictly backward pointers, and reserved label types followed by enough bytes
+
+/// (labels of the name at the bottom of the chain, hops, decode at an owner-like position?)
+fn enum_chains(_t: Tier, shard: usize, n: usize, f: &mut dyn FnMut((u8, u16)) -> bool) {
+    let mut i = 0;
+    for labels in [0u8, 1, 2, 63, 126, 127] {
+        for hops in (0u16..=40).chain([62, 63, 64, 65, 100, 126, 127, 128, 129, 200, 252, 253, 254, 255, 256, 257, 300, 511, 512, 1000, 4000]) {
+            i += 1;
+            if mine(i, shard, n) && !f((labels, hops)) {
+                return;
+            }
+        }
+    }
+}
+
+fn check_chain(input: &(u8, u16), case: &mut Case) -> Result<(), Fail> {
+    let (labels, hops) = *input;
+    // buffer: [name with `labels` one-byte labels][pointer to it][pointer to that pointer] ... [trailer]
+    let mut m: Vec<u8> = vec![0x5a; 3];
+    let name_at = m.len();
+    for k in 0..labels {
+        m.push(1);
+        m.push(b'a' + (k % 26));
+    }
+    m.push(0);
+    let mut target = name_at;
+    let mut last = name_at;
+    for _ in 0..hops {
+        last = m.len();
+        m.push(0xc0 | ((target >> 8) & 0x3f) as u8);
+        m.push(target as u8);
+        target = last;
+    }
+    m.extend_from_slice(&[0x77, 0x88, 0x99]);
+    if target > 0x3fff {
+        return Ok(());
+    }
+    // the reference decoder follows any number of hops; the library may refuse chains longer than 32 hops, but if it
+    // answers it must give these labels and resume right after the first pointer
+    let mut c = Case::default();
+    compare(&m, last, &mut c)?;
+    if hops > 0 {
+        compare(&m, last.saturating_sub(2).max(name_at), &mut c)?;
+    }
+    case.nontrivial = hops >= 1;
+    case.classes = c.classes;
+    case.class(format!("hops>{}", (hops / 128) * 128));
+    Ok(())
+}
+
+fn enum_reserved(_t: Tier, shard: usize, n: usize, f: &mut dyn FnMut((u8, u16)) -> bool) {
+    let mut i = 0;
+    for b in 0x40u16..=0xbf {
+        for room in [0u16, 1, 62, 63, 64, 127, 128, 191, 192, 260] {
+            i += 1;
+            if mine(i, shard, n) && !f((b as u8, room)) {
+                return;
+            }
+        }
+    }
+}
+
+fn check_reserved(input: &(u8, u16), case: &mut Case) -> Result<(), Fail> {
+    let (b, room) = *input;
+    // [first label "ab"] [reserved-type octet] [room bytes] [03 com 00]
+    let mut m = vec![2, b'a', b'b', b];
+    m.extend(std::iter::repeat(b'x').take(room as usize));
+    m.extend_from_slice(&[3, b'c', b'o', b'm', 0]);
+    case.nontrivial = true;
+    compare(&m, 0, case)?;
+    compare(&m, 3, case)
+}
+
 // ---- names inside messages: question, owner and RDATA positions, parsing must resume after the in-place bytes
 
 fn check_in_packet(input: &super::c10::ParseIn, case: &mut Case) -> Result<(), Fail> {
@@ -234,12 +307,14 @@ fn large_strategy(t: Tier) -> BoxedStrategy<(crate::gen::Sharing, Vec<u8>)> {
 pub fn def() -> CheckDef {
     CheckDef {
         id: "C06",
-        rule: "library name decoder (hook Name::verif_parse) vs an independent RFC 1035 4.1.4 decoder with a visited set: (1) bounded-exhaustive: every buffer of length <= 6 (7 thorough) over {00,01,02,03,04,05,3f,40,80,c0,ff,'a'} decoded at every start offset; (2) names of 250..=258 wire bytes from 5 label sizes, direct and through a pointer; (3) random 'soups' of labels (1..4, 30..40, 61..63 bytes), terminators, pointers to earlier pieces, absolute pointers (into the prefix, forward, out of range) and reserved-type octets, decoded at every piece start; (4) through Packet::parse: every record type reference-encoded with foreign compression (pointers inside all RDATA names) followed by another record, and suffix-sharing messages up to 64 KiB whose pointers reach offsets up to 16383, observed field by field. Oracle: library Ok => same labels and same resume offset, labels 1..=63, wire <= 255; reference error (cycle, out of range, reserved type, too long, truncated) => library Err; reference Ok with only backward pointers and <= 32 hops => library Ok. Non-trivial = the reference decode met a pointer, >= 2 labels or an error; evaluations count (buffer, offset) pairs",
+        rule: "library name decoder (hook Name::verif_parse) vs an independent RFC 1035 4.1.4 decoder with a visited set: (1) bounded-exhaustive: every buffer of length <= 6 (7 thorough) over {00,01,02,03,04,05,3f,40,80,c0,ff,'a'} decoded at every start offset; (2) names of 250..=258 wire bytes from 5 label sizes, direct and through a pointer; (2b) chains of 0..4000 strictly backward pointer hops onto names of 0..127 labels, and every reserved-type octet 0x40..=0xBF with 0..260 bytes behind it; (3) random 'soups' of labels (1..4, 30..40, 61..63 bytes), terminators, pointers to earlier pieces, absolute pointers (into the prefix, forward, out of range) and reserved-type octets, decoded at every piece start; (4) through Packet::parse: every record type reference-encoded with foreign compression (pointers inside all RDATA names) followed by another record, and suffix-sharing messages up to 64 KiB whose pointers reach offsets up to 16383, observed field by field. Oracle: library Ok => same labels and same resume offset, labels 1..=63, wire <= 255; reference error (cycle, out of range, reserved type, too long, truncated) => library Err; reference Ok with only backward pointers and <= 32 hops => library Ok. Non-trivial = the reference decode met a pointer, >= 2 labels or an error; evaluations count (buffer, offset) pairs",
         assumptions: vec!["forward pointers and chains longer than 32 hops may be refused (no claim)"],
         sections: vec![
             Box::new(ReplayOnly { name: "fuzz-bytes", check: check_raw }),
             Box::new(EnumSection { name: "exhaustive", rule: "all short buffers x all offsets", enumerate: enum_buffers, check: check_buffer, exhaustive: true }),
             Box::new(EnumSection { name: "boundary-255", rule: "names around 255 bytes", enumerate: enum_long, check: check_soup, exhaustive: true }),
+            Box::new(EnumSection { name: "chains", rule: "0..4000 strictly backward pointer hops onto names of 0..127 labels", enumerate: enum_chains, check: check_chain, exhaustive: true }),
+            Box::new(EnumSection { name: "reserved-types", rule: "every octet 0x40..=0xBF as a label type with 0..260 bytes behind it", enumerate: enum_reserved, check: check_reserved, exhaustive: true }),
             Box::new(PropSection { name: "in-packet", rule: "names in question / owner / RDATA positions of every type", strategy: super::c10::parse_strategy, cases: (100_000, 1_500_000), check: check_in_packet }),
             Box::new(PropSection { name: "in-packet-large", rule: "pointers to offsets up to 16383 in large messages", strategy: large_strategy, cases: (30_000, 300_000), check: check_in_large }),
             Box::new(PropSection { name: "soups", rule: "random name soups", strategy: soup_strategy, cases: (300_000, 4_000_000), check: check_soup }),
